@@ -107,6 +107,8 @@ type Exec struct {
 	W                   []*WatcherRec
 	H                   []*APICall
 	fds                 map[int]int // fd slots of the world
+	deepPrefix          string      // path (relative to the working directory) of the directory made by OpDeepMk
+	deepFD              int         // O_PATH descriptor on it: the harness reaches what is below through /proc/self/fd/N/...
 	BodyEnd             int
 	taskDone            []bool
 	nDone               int
@@ -428,6 +430,10 @@ type flagWaiter struct{ x *Exec }
 func (f flagWaiter) Ready() bool { return f.x.nDone >= len(f.x.sc.Tasks) }
 
 func (x *Exec) doOp(task string, op Op, phase string) {
+	if x.deepPrefix != "" {
+		op.P = strings.Replace(op.P, "@deep", x.deepPrefix, 1)
+		op.P2 = strings.Replace(op.P2, "@deep", x.deepPrefix, 1)
+	}
 	switch op.K {
 	case OpNewWatcher:
 		c := x.api(task, op, phase)
